@@ -126,4 +126,7 @@ pub struct HyraxProof<G: AffineRepr> {
     pub z_d: G::ScalarField,
     /// Auxiliary random scalar
     pub z_b: G::ScalarField,
+    /// The randomness of the commitment `com_eval` to the evaluation, which
+    /// lets the verifier open it to the claimed value
+    pub r_eval: G::ScalarField,
 }
